@@ -247,8 +247,10 @@ fn main() {
         out.m(&format!("dnm-insert {} {} {}", sx::nums(&m0), k, v), &resp);
 
         // rewrite under a plan built by sorting values (with ties)
-        let plen = r.below(5);
-        let vals: Vec<u32> = (0..plen).map(|_| r.below(3) as u32).collect();
+        // up to 8 keys, up to 6 distinct values: the sorting permutations then include long cycles
+        let plen = r.below(9);
+        let nv = 2 + r.below(5);
+        let vals: Vec<u32> = (0..plen).map(|_| r.below(nv) as u32).collect();
         let plan: RewritePlan<Id, _> = RewritePlan::from_values_to_sort(&vals);
         let plan_list: Vec<usize> = plan.get_state().values().map(|id| usize::from(*id)).collect();
         let mlen = if r.chance(4, 5) { plen } else { r.below(6) };
@@ -263,6 +265,7 @@ fn main() {
             });
             let resp = match res { Ok(x) => { out.stat("rewrite-kv-ok"); sx::nums(x.values().map(|id| usize::from(*id))) } Err(_) => { out.stat("rewrite-kv-panic"); "panic".into() } };
             out.m(&format!("dnm-rewrite {} {} kv", sx::nums(&plan_list), sx::nums(&m)), &resp);
+            out.o(&format!("o-dnm-rewrite {} {} kv {}", sx::nums(&plan_list), sx::nums(&m), resp));
         } else {
             let m: Vec<u32> = (0..mlen).map(|_| r.below(50) as u32).collect();
             let m2 = m.clone();
@@ -273,6 +276,7 @@ fn main() {
             });
             let resp = match res { Ok(x) => { out.stat("rewrite-k-ok"); sx::nums(x.values()) } Err(_) => { out.stat("rewrite-k-panic"); "panic".into() } };
             out.m(&format!("dnm-rewrite {} {} k", sx::nums(&plan_list), sx::nums(&m)), &resp);
+            out.o(&format!("o-dnm-rewrite {} {} k {}", sx::nums(&plan_list), sx::nums(&m), resp));
         }
     }
     out.finish();
